@@ -61,6 +61,16 @@ theorem delete_then_absent (st : State) (key : String)
     getDefault (step st (.delete key)).1 key = none := by
   simp [step, h, getDefault, alGet_alDel_self]
 
+/-- **Reads see exactly the last write.**  For EVERY operation sequence, `get_embedding` reads
+    the default collection as the map the operations describe (`specStep`): a key reads back the
+    vector of the last successful store / batch store of that key (whatever representation was
+    chosen), unless a later delete / batch delete / clear removed it; metadata updates, index
+    builds, cache invalidations and everything done to named collections change nothing. -/
+theorem reads_see_last_write (ops : List Op) :
+    getDefault (run State.init ops) = ops.foldl specStep (fun _ => none) := by
+  rw [view_run]
+  rfl
+
 /-! ### search_is_topk — brute-force search returns the true nearest stored vectors -/
 
 /-- ranking is generic: for ANY total preorder `ge` on candidates, sort-then-truncate returns
@@ -574,6 +584,14 @@ example : (postProcessAnn [("a", [1, 0]), ("b", [0, 1])] (annWithTrueScores [("a
 example : toDense bitsOps (mkRepr bitsOps [2147483648, 0, 0, 1065353216]) = [0, 0, 0, 1065353216] := by decide
 example : toDense intOps (mkRepr intOps [0, 0, 5, 0]) = [0, 0, 5, 0] := repr_roundtrip_int _
 example : alHas (run State.init [.store "a" [1]]).dflt.items "a" = true := by decide
+-- overwrite, delete and a batch in one sequence: the reader sees the last write of each key
+example : (getDefault (run State.init [.store "a" [1], .store "b" [2], .store "a" [0, 0, 3], .delete "b",
+      .batchStore [("c", [4]), ("c", [5])], .updateMeta "a" [("f", 1)]]) "a",
+    getDefault (run State.init [.store "a" [1], .store "b" [2], .store "a" [0, 0, 3], .delete "b",
+      .batchStore [("c", [4]), ("c", [5])], .updateMeta "a" [("f", 1)]]) "b",
+    getDefault (run State.init [.store "a" [1], .store "b" [2], .store "a" [0, 0, 3], .delete "b",
+      .batchStore [("c", [4]), ("c", [5])], .updateMeta "a" [("f", 1)]]) "c")
+    = (some [0, 0, 3], none, some [5]) := by decide
 -- metadata updates are seen by filters and leave a cached index in use (the vectors did not change)
 example : (searchFiltered (run State.init [.storeMeta "a" [1, 0] [("f", 0)], .storeMeta "b" [0, 1] [("f", 0)],
       .updateMeta "b" [("f", 1)]]) [1, 1] 5 (.cmp .eq "f" 1) .pre 3).answer.map (·.key) = ["b"] := by decide
